@@ -326,6 +326,93 @@ func genCase(t *rapid.T) Case {
 	return c
 }
 
+// genInScalarCase: the excluded block sits between the lines of a multi-line scalar value (literal, folded,
+// double-quoted) of a rule field - template directives inside an expression are the documented use of
+// ignore/line.  Only the replacement relation applies there, and the two payloads are padded to the same
+// byte length per line: a masked line is a run of spaces, and inside a scalar the length of such a run can
+// be content (YAML's business, not the masking's).
+func genInScalarCase(t *rapid.T) Case {
+	form := rapid.SampledFrom([]string{"line", "next-line", "begin-end"}).Draw(t, "form")
+	spell := func(what string) string {
+		return rapid.SampledFrom([]string{"# pint " + what, "#pint " + what, "#  pint   " + what + "  "}).Draw(t, "spell")
+	}
+	cLine, cNext, cBegin, cEnd := spell("ignore/line"), spell("ignore/next-line"), spell("ignore/begin"), spell("ignore/end")
+	n := rapid.IntRange(1, 3).Draw(t, "nlines")
+	var pa, pb payload
+	switch form {
+	case "line":
+		pa, pb = genPayload(t, "pa", n, false, false, false), genPayload(t, "pb", n, false, false, false)
+	case "next-line":
+		pa, pb = genPayload(t, "pa", n, true, true, true), genPayload(t, "pb", n, true, true, true)
+	default:
+		pa, pb = genPayload(t, "pa", n, true, true, false), genPayload(t, "pb", n, true, true, false)
+	}
+	if form == "begin-end" {
+		// a repeated ignore/begin inside a block is kept by pint as a control comment of the form (pinned by
+		// upstream's TestReadContent/21,23), not payload: invisible between rules, content inside a scalar
+		for _, p := range []*payload{&pa, &pb} {
+			for i, l := range p.lines {
+				if strings.Contains(l, "ignore/begin") {
+					p.lines[i] = strings.Replace(l, "ignore/begin", "ignore/bogus", 1)
+				}
+			}
+		}
+	}
+	// text of the neighbouring value lines makes a leak into the position search visible
+	if rapid.Bool().Draw(t, "lookalike") {
+		pa.lines[0] = rapid.SampledFrom([]string{"> 10 by (job)", "sum(foo) > 10", "{{ $labels.job }} now > 1", "by (job) bar"}).Draw(t, "lookalikeText")
+	}
+	for i := range pa.lines {
+		for len(pa.lines[i]) < len(pb.lines[i]) {
+			pa.lines[i] += " "
+		}
+		for len(pb.lines[i]) < len(pa.lines[i]) {
+			pb.lines[i] += " "
+		}
+	}
+	block := func(p payload, ind string) []string {
+		var out []string
+		switch form {
+		case "line":
+			for _, l := range p.lines {
+				out = append(out, ind+l+" "+cLine)
+			}
+		case "next-line":
+			for _, l := range p.lines {
+				out = append(out, ind+cNext, ind+l)
+			}
+		default:
+			out = append(out, ind+cBegin)
+			for _, l := range p.lines {
+				out = append(out, ind+l)
+			}
+			out = append(out, ind+cEnd)
+		}
+		return out
+	}
+	slot := rapid.SampledFrom([]string{"literal-expr", "folded-annotation", "dq-expr", "literal-expr", "all"}).Draw(t, "slot")
+	build := func(p payload) string {
+		var b []string
+		add := func(l ...string) { b = append(b, l...) }
+		in := func(name, ind string) []string {
+			if slot == name || slot == "all" {
+				return block(p, ind)
+			}
+			return nil
+		}
+		add("groups:", "- name: g", "  rules:", "  - alert: Foo", "    expr: |", "      sum(foo) by (job)")
+		add(in("literal-expr", "      ")...)
+		add("      > 10", "    for: 5m", "    annotations:", "      summary: >-", "        value is {{ $value }} for")
+		add(in("folded-annotation", "        ")...)
+		add("        {{ $labels.job }} now", "  - record: bar:sum", "    expr: \"sum(bar)")
+		add(in("dq-expr", "      ")...)
+		add("      by (job)\"")
+		return strings.Join(b, "\n") + "\n"
+	}
+	return Case{A: build(pa), B: build(pb), Form: form, Rel: "replacement", Relaxed: rapid.IntRange(0, 3).Draw(t, "relaxed") == 0,
+		Point: "in-scalar:" + slot, Payload: pa.class + " | " + pb.class, PintComment: pa.pint || pb.pint}
+}
+
 func knownClass(c Case) string {
 	if c.PintComment {
 		return "pint-comment-in-excluded-text"
@@ -358,6 +445,8 @@ func drive(t *testing.T, g func(*rapid.T) Case) {
 }
 
 func TestPropExcluded(t *testing.T) { drive(t, genCase) }
+
+func TestPropExcludedInScalar(t *testing.T) { drive(t, genInScalarCase) }
 
 func TestReplay(t *testing.T) {
 	p := vstat.ReplayPath()
